@@ -7,7 +7,38 @@ use actix_web::FromRequest as _;
 use axum::extract::FromRequest as _;
 use axum::response::IntoResponse as _;
 use deserr::Deserr;
-use futures::executor::block_on;
+
+/// Drives a future to completion on this thread. Everything the extractors wait for is in memory, so a `Pending` that
+/// did not arrange its own wake-up can never be followed by progress: that is reported (as a panic of the call, which
+/// `guarded` turns into an outcome) instead of parking the thread forever. The bound is logical, not a timeout.
+fn block_on<F: std::future::Future>(f: F) -> F::Output {
+    use std::sync::atomic::{AtomicBool, Ordering};
+    struct Flag(AtomicBool);
+    impl std::task::Wake for Flag {
+        fn wake(self: std::sync::Arc<Self>) {
+            self.0.store(true, Ordering::SeqCst);
+        }
+        fn wake_by_ref(self: &std::sync::Arc<Self>) {
+            self.0.store(true, Ordering::SeqCst);
+        }
+    }
+    let flag = std::sync::Arc::new(Flag(AtomicBool::new(false)));
+    let waker = std::task::Waker::from(flag.clone());
+    let mut cx = std::task::Context::from_waker(&waker);
+    let mut f = std::pin::pin!(f);
+    for _ in 0..1_000_000u32 {
+        flag.0.store(false, Ordering::SeqCst);
+        match f.as_mut().poll(&mut cx) {
+            std::task::Poll::Ready(v) => return v,
+            std::task::Poll::Pending => {
+                if !flag.0.load(Ordering::SeqCst) {
+                    panic!("the future returned Pending without arranging a wake-up: it never completes");
+                }
+            }
+        }
+    }
+    panic!("the future did not complete within 1000000 polls");
+}
 use serde_json::{json, Value};
 
 use crate::gen::{hex, Cfg, JsonReq, QueryReq};
